@@ -133,7 +133,7 @@ def grep_forbidden():
     return hits
 
 
-def cargo_build(profile='debug', features=None, no_default=False):
+def cargo_build(profile='debug', features=None, no_default=False, bins=None):
     """Build the harness against /repo's working tree.  Returns path of the binary."""
     cmd = ['cargo', 'build', '--offline', '--quiet']
     tdir = os.path.join(BUILD, 'cargo')
@@ -148,6 +148,8 @@ def cargo_build(profile='debug', features=None, no_default=False):
         cmd.append('--no-default-features')
     if features:
         cmd += ['--features', ','.join(features)]
+    for b in bins or []:
+        cmd += ['--bin', b]
     with Lock('cargo.lock'):
         rc, out = sh(cmd, cwd=os.path.join(VERIF, 'harness'))
     if rc != 0:
